@@ -158,6 +158,45 @@ def fields(nf: int, maxf: int, maxsz: int, l1: int, l2: int, l3: int) -> bool:
     return within and len(hs) == (nf - 1 if under == "drop" else nf)
 
 
+# ---- 4b. the trailer cap is about the trailer block only: what is pipelined behind an (empty) trailer section is not counted ---
+def trailers_then_pipelined(k: int, cut: int, ntr: int) -> bool:
+    """
+    pre: 0 <= k <= CASE["kmax"] and 0 <= cut <= 3 and 0 <= ntr <= 1
+    post: __return__
+    """
+    # a complete chunked body (no trailers, or one short trailer field) followed in the same read by k bytes of a pipelined
+    # request that contains no CRLFCRLF yet; header limits so small that k can exceed max_buffer_headers.  The body must
+    # be delivered (this request is within every limit) and the pipelined bytes must stay available for the next request.
+    from gunicorn.http.body import Body
+    k, cut, ntr = pick(k, 0, CASE["kmax"]), pick(cut, 0, 3), pick(ntr, 0, 1)
+    r = mk_req()
+    r.limit_request_fields = 2
+    r.limit_request_field_size = 10
+    r.max_buffer_headers = 2 * (10 + 2) + 4                  # = 28, as Message.__init__ computes it
+    trailer = b"T: v\r\n" if ntr else b""
+    tail = b"G" * k
+    data = b"2\r\nab\r\n0\r\n" + trailer + b"\r\n" + tail
+    end_last_chunk = len(b"2\r\nab\r\n0\r\n")
+    cuts = [None, end_last_chunk, end_last_chunk + 1, end_last_chunk + len(trailer) + 2]
+    c = cuts[cut]
+    chunks = [data] if c is None or c >= len(data) else [data[:c], data[c:]]
+    u = IterUnreader(chunks)
+    body = Body(ChunkedReader(r, u))
+    try:
+        got = body.read()
+    except LimitRequestHeaders:
+        return False                                      # rejected for size although the trailer block is tiny
+    if got != b"ab":
+        return False
+    rest = u.read()
+    while True:
+        more = u.read()
+        if not more:
+            break
+        rest += more
+    return rest == tail
+
+
 # ---- 4. bounded buffering on endless input -----------------------------------------------------------------------------------
 class Meter(IterUnreader):
     def __init__(self, chunks):
@@ -282,6 +321,9 @@ OBLIGATIONS = [
        [{"nf": a, "maxf": 2, "under": u} for a in (1, 2, 3) for u in ("drop", "dangerous")], timeout=1200,
        bound="1..3 header fields of length 3..8, limit_request_fields 1..3, limit_request_field_size 0..9; with obsolete folding; with an "
              "underscore name under header_map drop / dangerous"),
+    Ob("C12.trailers_then_pipelined", "trailers_then_pipelined", cases={"quick": [{"kmax": 40}], "thorough": [{"kmax": 90}]}, timeout=900,
+       bound="chunked body with an empty or one-field trailer section followed by 0..40 (thorough 90) pipelined bytes, header cap 28 "
+             "bytes, stream whole or cut after the last-chunk line / inside / after the final CRLF"),
     Ob("C12.buffer", "buffer_bound", cases=_BUF, timeout=600,
        bound="endless delimiter-free streams of up to 5-8 reads against read_line, the header-block scan, "
              "parse_chunk_size (4096-byte reads vs the 8190 cap) and parse_trailers with small configured bounds"),
